@@ -21,7 +21,7 @@ TECHNIQUE = 'property-based testing (Hypothesis): generated models, no-idle / no
 LEVEL_TEXT = 'Generated-input search with invariants evaluated on the end-of-allocation state of every working step (sound because allocation lists only grow during the pass); not a proof.'
 LEVEL_NOTE = 'Trusts the step observer; eligibility predicate shared with C04; pair clause only for flat products and single-task components, as the property states.'
 
-CFG = gen.Cfg(unit_time=6, float_mode=6, warm_modes=["morph", "graft", "carry", "append", "nolog"], warm=3, onesided=3, facilities=True, max_workers=5, max_time=[40, 80], kinds=[0, 0, 1, 2, 3], inputs=False, abs_p=2, abs_size=6,
+CFG = gen.Cfg(unit_time=6, float_mode=6, warm_modes=["morph", "graft", "carry", "append", "nolog", "cutrerun"], warm=3, onesided=3, facilities=True, max_workers=5, max_time=[40, 80], kinds=[0, 0, 1, 2, 3], inputs=False, abs_p=2, abs_size=6,
               abs_max=12, max_deps_factor=3)
 
 
@@ -60,6 +60,8 @@ def _fit_spec(draw):
         "tasks": tasks, "deps": deps, "order": list(draw(st.permutations(list(range(n))))), "comps": comps,
         "teams": [{"targets": list(range(n))}], "workers": workers, "wps": wps, "facs": facs,
         "opts": {"rule": draw(st.sampled_from([0, 2, 4])), "abs": [], "auto_abs": False, "max_time": 60},
+        # half of the time the model's own run has been cut short before (components still placed) and is run again
+        **({"warm": {"mode": "cutrerun", "k": draw(st.integers(1, 2))}} if draw(st.booleans()) else {}),
     }
 
 
